@@ -14,9 +14,57 @@ const maxInlineInstrs = 60
 func (v *FnVC) call(fr *frame, st *State, x ssa.CallInstruction) Val {
 	res := v.call1(fr, st, x)
 	// ghost observers of direct calls made by the function under verification
-	if fr.top {
-		if par, ok := x.Common().Value.(*ssa.Parameter); ok && !x.Common().IsInvoke() && x.Common().StaticCallee() == nil {
-			// a call through a function-typed parameter: called(p) / errSeen(p)
+	// a call through a function-typed parameter of the function under verification is observed where the function makes
+	// it itself and where one of its own inlined closures makes it through the captured parameter
+	var viaParam *ssa.Parameter
+	maybeParam := false
+	if !x.Common().IsInvoke() && x.Common().StaticCallee() == nil && (fr.top || fr.own || fr.ownCtx) && v.top != nil {
+		// the called value is compared with the parameters by identity: a parameter that closures capture lives in a
+		// cell, so the call goes through a load, not through the *ssa.Parameter itself
+		if par, ok := x.Common().Value.(*ssa.Parameter); ok && fr.top {
+			viaParam = par
+		} else if cur, ok := fr.vals[x.Common().Value].(FuncV); ok && cur.Fn == nil && cur.Ref.S != "" {
+
+			for _, p := range v.fn.Params {
+				if _, isSig := under(p.Type()).(*types.Signature); !isSig {
+					continue
+				}
+				if pv, ok := v.top.vals[p].(FuncV); ok && pv.Fn == nil && pv.Ref.S != "" {
+					if pv.Ref.S == cur.Ref.S {
+						viaParam = p
+					} else if strings.Contains(cur.Ref.S, pv.Ref.S) {
+						maybeParam = true
+					}
+				}
+			}
+		}
+	}
+	if maybeParam && viaParam == nil {
+		// the value may or may not be one of the parameters (a conditional): their observers become unknown
+		for _, p := range v.fn.Params {
+			if _, isSig := under(p.Type()).(*types.Signature); !isSig {
+				continue
+			}
+			k := "param:" + p.Name()
+			for _, g := range []string{"called#", "errSeen#"} {
+				old := st.ghostGet(g + k)
+				n := v.sc.Fresh("ghost", SBool)
+				v.sc.Assert(Implies(old, n))
+				st.ghost[g+k] = n
+			}
+			old := tZero
+			if t, ok := st.ghost["count#"+k]; ok {
+				old = t
+			}
+			n := v.sc.Fresh("ghostn", SInt)
+			v.sc.Assert(Le(old, n))
+			st.ghost["count#"+k] = n
+		}
+	}
+	if viaParam != nil {
+		{
+			par := viaParam
+			// called(p) / errSeen(p) / calls(p)
 			k := "param:" + par.Name()
 			st.ghost["called#"+k] = tTrue
 			{
@@ -37,6 +85,8 @@ func (v *FnVC) call(fr *frame, st *State, x ssa.CallInstruction) Val {
 				}
 			}
 		}
+	}
+	if fr.top {
 		if cal := x.Common().StaticCallee(); cal != nil {
 			k := FuncKey(cal)
 			st.ghost["called#"+k] = tTrue
@@ -341,7 +391,7 @@ func (v *FnVC) canInline(fr *frame, callee *ssa.Function) bool {
 	if !v.w.InModule(callee) {
 		return false
 	}
-	if v.w.IsParametric(callee) && !(v.w.Contracts.ParametricFuncs[FuncKey(callee)] && takesFunc(callee)) {
+	if v.w.IsParametric(callee) && !(v.w.Contracts.ParametricFuncs[FuncKey(callee)] && takesFunc(callee)) && !(callee.Parent() != nil && isAncestor(v.fn, callee)) {
 		// higher-order framework functions (visitors, rewriters) are summarised by the effects of their callbacks; a
 		// small helper that is declared parametric by name (common.WriteBlockBody) is still inlined when it can be
 		return false
